@@ -180,7 +180,7 @@ func (s *Sess) sortOf(t types.Type) string {
 	case *types.Slice:
 		return s.seqSort(s.sortOf(u.Elem()))
 	case *types.Array:
-		return "(Array Int " + s.sortOf(u.Elem()) + ")"
+		return s.arrSort(u)
 	case *types.Map:
 		return s.mapSort(s.sortOf(u.Key()), s.sortOf(u.Elem()))
 	case *types.Tuple:
@@ -308,6 +308,17 @@ func (s *Sess) zero(t types.Type) string {
 		return s.mkSeq(es, "0", "((as const (Array Int "+es+")) "+s.zero(u.Elem())+")")
 	case *types.Array:
 		es := s.sortOf(u.Elem())
+		if smallArr(u) {
+			z := s.zero(u.Elem())
+			var fs []string
+			for i := int64(0); i < u.Len(); i++ {
+				fs = append(fs, z)
+			}
+			if len(fs) == 0 {
+				return "mk_" + s.arrSort(u)
+			}
+			return "(mk_" + s.arrSort(u) + " " + strings.Join(fs, " ") + ")"
+		}
 		return "((as const (Array Int " + es + ")) " + s.zero(u.Elem()) + ")"
 	case *types.Map:
 		ks, vs := s.sortOf(u.Key()), s.sortOf(u.Elem())
@@ -473,4 +484,112 @@ func sortedKeys[V any](m map[string]V) []string {
 	}
 	sort.Strings(ks)
 	return ks
+}
+
+// ---------------------------------------------------------------- Go arrays
+//
+// Small Go arrays ([N]T with N <= 128: roots, pubkeys, signatures, versions,
+// domains) are SMT datatypes with N fields: equality is structural (no
+// extensionality, no out-of-range garbage), constant indices are accessors,
+// symbolic indices are ite-chains.  Larger arrays stay SMT arrays.
+
+const smallArrMax = 128
+
+func smallArr(u *types.Array) bool { return u.Len() <= smallArrMax }
+
+func (s *Sess) arrSort(u *types.Array) string {
+	es := s.sortOf(u.Elem())
+	if !smallArr(u) {
+		return "(Array Int " + es + ")"
+	}
+	sn := fmt.Sprintf("Arr%d_%s", u.Len(), sortID(es))
+	if !s.sortSeen[sn] {
+		s.sortSeen[sn] = true
+		var fs []string
+		for i := int64(0); i < u.Len(); i++ {
+			fs = append(fs, fmt.Sprintf("(e%d_%s %s)", i, sn, es))
+		}
+		s.sortDecl = append(s.sortDecl, fmt.Sprintf("(declare-datatypes ((%s 0)) (((mk_%s %s))))", sn, sn, strings.Join(fs, " ")))
+	}
+	return sn
+}
+
+// arrSelect reads element i of Go array value x.
+func (s *Sess) arrSelect(u *types.Array, x, i string) string {
+	if !smallArr(u) {
+		return "(select " + x + " " + i + ")"
+	}
+	sn := s.arrSort(u)
+	if c, ok := isConstTerm(i); ok && c.IsInt64() && c.Int64() >= 0 && c.Int64() < u.Len() {
+		return fmt.Sprintf("(e%d_%s %s)", c.Int64(), sn, x)
+	}
+	if u.Len() == 0 {
+		return s.zero(u.Elem())
+	}
+	// symbolic index: an uninterpreted accessor (a matchable term for quantifier triggers)
+	// defined by one axiom as the ite-chain over the N fields
+	get := "get_" + sn
+	if !s.funSeen[get] {
+		s.funSeen[get] = true
+		es := s.sortOf(u.Elem())
+		s.funDecl = append(s.funDecl, fmt.Sprintf("(declare-fun %s (%s Int) %s)", get, sn, es))
+		t := fmt.Sprintf("(e%d_%s ax)", u.Len()-1, sn)
+		for k := u.Len() - 2; k >= 0; k-- {
+			t = fmt.Sprintf("(ite (= ai %d) (e%d_%s ax) %s)", k, k, sn, t)
+		}
+		s.axioms = append(s.axioms, fmt.Sprintf("(assert (forall ((ax %s) (ai Int)) (! (= (%s ax ai) %s) :pattern ((%s ax ai)))))", sn, get, t, get))
+	}
+	return "(" + get + " " + x + " " + i + ")"
+}
+
+// arrStore returns x with element i replaced by v.
+func (s *Sess) arrStore(u *types.Array, x, i, v string) string {
+	if !smallArr(u) {
+		return "(store " + x + " " + i + " " + v + ")"
+	}
+	sn := s.arrSort(u)
+	c, isC := isConstTerm(i)
+	var fs []string
+	for k := int64(0); k < u.Len(); k++ {
+		cur := fmt.Sprintf("(e%d_%s %s)", k, sn, x)
+		switch {
+		case isC && c.IsInt64() && c.Int64() == k:
+			fs = append(fs, v)
+		case isC:
+			fs = append(fs, cur)
+		default:
+			fs = append(fs, fmt.Sprintf("(ite (= %s %d) %s %s)", i, k, v, cur))
+		}
+	}
+	return "(mk_" + sn + " " + strings.Join(fs, " ") + ")"
+}
+
+// arrToSMT converts a Go array value to an SMT (Array Int E) holding its elements at 0..N-1.
+func (s *Sess) arrToSMT(u *types.Array, x string) string {
+	if !smallArr(u) {
+		return x
+	}
+	es := s.sortOf(u.Elem())
+	sn := s.arrSort(u)
+	t := "((as const (Array Int " + es + ")) " + s.zero(u.Elem()) + ")"
+	for k := int64(0); k < u.Len(); k++ {
+		t = fmt.Sprintf("(store %s %d (e%d_%s %s))", t, k, k, sn, x)
+	}
+	return t
+}
+
+// arrFromSMT builds a Go array value from the elements 0..N-1 of an SMT array.
+func (s *Sess) arrFromSMT(u *types.Array, a string) string {
+	if !smallArr(u) {
+		return a
+	}
+	sn := s.arrSort(u)
+	var fs []string
+	for k := int64(0); k < u.Len(); k++ {
+		fs = append(fs, fmt.Sprintf("(select %s %d)", a, k))
+	}
+	if len(fs) == 0 {
+		return "mk_" + sn
+	}
+	return "(mk_" + sn + " " + strings.Join(fs, " ") + ")"
 }
